@@ -22,7 +22,9 @@
    abstracted (so op_adc_shape / op_sbc_shape hold by conversion), and [adc8_cps_eq] ... push
    the continuation out: adc8_cps a d c dec k = k (adc8_sum a d c dec).
 
-   snapshot_dep: op_adc, op_sbc, setZN8, setZN16 *)
+   snapshot_dep: op_adc, op_sbc, setZN8, setZN16
+
+   (the line above is machine-read: names, then a blank line) *)
 From Coq Require Import ZArith NArith List Bool Lia.
 From Spec Require Import ISA Spec816.
 From Lib Require Import ZOps Machine.
